@@ -1,3 +1,3 @@
-@parent.setter
-def parent(self, parent):
-    self._parent = parent
+@property
+def parent(self):
+    return self._parent
